@@ -380,6 +380,9 @@ func (g *gen) declareVars(c *Case) {
 		switch {
 		case cfg.origins && t == "monetary" && r.Intn(3) == 0:
 			acc := g.expr("account", "", 0)
+			if vs := g.varsOf("account"); len(vs) > 0 && r.Intn(2) == 0 {
+				acc = eVar(pick(r, vs))
+			}
 			as := g.expr("asset", "", 0)
 			origin = J{"k": "call", "name": "balance", "args": jl(acc, as)}
 			usable = false // its value is not known to the generator
@@ -439,8 +442,14 @@ func (g *gen) sendStmt() J {
 	if c.worldSrcOnly {
 		if all {
 			src = J{"k": "acct", "e": eAcct(pick(r, c.accts))}
+			if r.Intn(3) == 0 {
+				src = J{"k": "seq", "s": []any{J{"k": "acct", "e": eAcct("a")}, J{"k": "acct", "e": eAcct("b")}, J{"k": "acct", "e": eAcct("c")}}}
+			}
 		} else {
 			src = J{"k": "acct", "e": eAcct("world")}
+			if r.Intn(3) == 0 { // several senders in line, world last: the amount is always supplied
+				src = J{"k": "seq", "s": []any{J{"k": "acct", "e": eAcct("a")}, J{"k": "acct", "e": eAcct("b")}, J{"k": "acct", "e": eAcct("world")}}}
+			}
 		}
 	} else {
 		src = g.src(asset, c.srcDepth, ctx, all, false)
